@@ -156,7 +156,7 @@ PLANS["C15"] = dict(
     targets=[TIMEOUT + n for n in ("__init__", "expired", "timeleft")] +
             [ASYNC + n for n in ("__init__", "__call__", "add_callback", "set_expiry", "wait", "value", "ready")] +
             [PROTO + "async_request", PROTO + "sync_request", "rpyc/utils/helpers.py::_Async.__call__", "rpyc/utils/helpers.py::timed.__call__"],
-    lemmas=["app_app1", "app_nil"], compositions=[], native_focus=[], design_ref="DESIGN.md section 4, C15",
+    lemmas=["app_app1", "app_nil"], compositions=[], bounded=["asyncresult_callbacks_bounded"], native_focus=[], design_ref="DESIGN.md section 4, C15",
     assumptions=COMMON_ASSUMPTIONS + [
         "time is a real-valued ghost clock: every time.time() returns a value not smaller than any earlier one; floats used "
         "for deadlines are treated as mathematical reals (machine arithmetic treated as mathematical)",
@@ -168,6 +168,9 @@ PLANS["C15"] = dict(
         "connection through AsyncResult.__call__ (whose own contract gives finality) and never raise TimeoutError",
         "the real-time half of `not later unless busy serving` (that poll returns by the deadline) is the OS's contract: "
         "proved is that wait() hands serve() the result's OWN deadline object and re-tests it after every call",
+        "BOUNDED companion (not a proof; the proof of AsyncResult.__call__ is the loop contract): the real class is run for 0..6 "
+        "callbacks before and 0..2 after the reply, value and exception replies (42 cases) - it exists because "
+        "a restructured loop makes the loop contract stale (exit 3), as the seeded change C15-callbacks-reversed showed",
         "helpers._Async.__call__ and helpers.timed.__call__ are verified: one asynchronous call request with exactly the given "
         "arguments; a timed call sets the expiry of exactly that result to exactly the wrapper's timeout, once (the result "
         "object is dynamic there: set_expiry is a ghost call event, its own contract is AsyncResult.set_expiry's); async_() / "
